@@ -132,6 +132,7 @@ class Execution:
         self.sems = [threading.Semaphore(0) for _ in bodies]
         self.done = [False] * self.k
         self.blocked = [None] * self.k
+        self.helper = []  # per point: True if the frame's code lives in a shared helper module (common.py)
         self.trace = []  # running thread id at each point (>=0), thread-end points are ~tid (negative)
         self.alive = []  # bitmask of threads not finished (and not lock-blocked) at each point
         self.where = []  # (file, line, lasti) per point, only when record=True
@@ -156,6 +157,7 @@ class Execution:
         i = len(self.trace)
         self.trace.append(tid)
         self.alive.append(self._mask())
+        self.helper.append(frame.f_code.co_filename.endswith("common.py"))
         if self.record:
             self.where.append((frame.f_code.co_filename[len(self.pkg):], frame.f_lineno, frame.f_lasti))
         nxt = self.dev.get(i, tid)
@@ -172,6 +174,7 @@ class Execution:
         i = len(self.trace)
         self.trace.append(tid)
         self.alive.append(self._mask())
+        self.helper.append(False)
         if self.record:
             self.where.append(("<lock-wait>", 0, 0))
         m = self._mask()
@@ -198,6 +201,7 @@ class Execution:
         self.trace.append(~tid)
         m = self._mask()
         self.alive.append(m)
+        self.helper.append(False)
         if self.record:
             self.where.append(("<thread-end>", 0, 0))
         if m == 0:
@@ -221,6 +225,8 @@ class Execution:
         point = self.point
         trace_append = self.trace.append
         alive_append = self.alive.append
+        helper_append = self.helper.append
+        hflag = {}
         trace = self.trace
         dev = self.dev
         exe = self
@@ -231,6 +237,11 @@ class Execution:
                 if fast and len(trace) not in dev:
                     trace_append(tid)
                     alive_append(exe.mask)
+                    co = frame.f_code
+                    h = hflag.get(co)
+                    if h is None:
+                        h = hflag[co] = co.co_filename.endswith("common.py")
+                    helper_append(h)
                 else:
                     point(tid, frame)
             return local
@@ -309,6 +320,8 @@ def harness(name, kind):
         elif name == "H5":
             bodies = [lambda: _bits(m.rate(g0, limit_sigma=True)), lambda: _bits(m.rate(g1, tau=0)),
                       lambda: _bits(m.predict_rank(g2))]
+        elif name == "H8":  # ties in BOTH threads (both go through vt/wt and the tie bookkeeping at the same time)
+            bodies = [lambda: _bits(m.rate(g0, ranks=[1, 1])), lambda: _bits(m.rate(g2, scores=[0, 0, 0]))]
         elif name == "H7":  # predictors against predictors (scratch data of the pairwise loops)
             bodies = [lambda: [_bits(m.predict_win(g2)), _bits(m.predict_rank(g2))],
                       lambda: [_bits(m.predict_win(g3)), _bits(m.predict_draw(g3)), _bits(m.predict_rank(g3))]]
@@ -321,7 +334,7 @@ def harness(name, kind):
     return mk
 
 
-HARNESSES = ["H1", "H2", "H3", "H4", "H5", "H6", "H7"]
+HARNESSES = ["H1", "H2", "H3", "H4", "H5", "H6", "H7", "H8"]
 
 
 def solo(mk):
@@ -386,10 +399,13 @@ def baseline(mk, gran, k):
     return ex
 
 
-def explore(mk, gran, bound, shard=(0, 1), max_exec=None, end_choices="all"):
+def explore(mk, gran, bound, shard=(0, 1), max_exec=None, end_choices="all", only_helper=False):
     """end_choices: "all" = at every thread end every live thread may continue (free choice, explored in combination with the
     preemptions); "serial" = free thread-end choices are explored only in executions without preemption (all serial orders),
-    preempted executions continue with the lowest live thread (used by the quick tier for the 3-thread harness)."""
+    preempted executions continue with the lowest live thread (used by the quick tier for the 3-thread harness).
+    only_helper: preemptions are placed only at points whose frame belongs to a shared helper module (common.py) - the
+    functions all five model files call and the natural home of module-level scratch state; this keeps b <= 2 affordable
+    on every change (a few thousand executions) while the unrestricted b <= 2 search runs in the thorough tier."""
     """Iterative preemption bounding.  Returns dict(executions per bound, points, outcomes, violations)."""
     m, bodies = mk()
     k = len(bodies)
@@ -425,6 +441,8 @@ def explore(mk, gran, bound, shard=(0, 1), max_exec=None, end_choices="all"):
                     # a thread at a line/opcode point: switching away from it is a preemption
                     ncost = cost + 1
                     default = running
+                    if only_helper and not ex.helper[i]:
+                        continue  # restricted search: preempt only inside the shared helper modules (common.py)
                 else:
                     ncost = cost  # thread end: choosing who continues is free
                     default = min(j for j in range(k) if (alive >> j) & 1) if alive else None
